@@ -439,6 +439,12 @@ func (p *ProofD) revocationAttrIndex() int {
 	params := revocation.Parameters
 	max := new(big.Int).Lsh(big.NewInt(1), params.AttributeSize+params.ChallengeLength+params.ZkStat+1)
 	for idx, i := range p.AResponses {
+		// Attribute 0 is the secret key, which the holder chooses itself and the issuer never sees:
+		// it must never be taken for the revocation attribute. (For e = 1 the pair (u, e) = (nu, 1) is
+		// a witness for every accumulator, so a holder with secret key 1 would never be revoked.)
+		if idx == 0 {
+			continue
+		}
 		if i.Cmp(max) < 0 {
 			return idx
 		}
